@@ -79,7 +79,8 @@ Post(ev) ==
     [] op = "frexp" -> PostFrexp(Arg(a[1]), F(ev.o.v[1]), ev.o.v[2].v)
     [] op = "ldexp" -> PostLdexp(Arg(a[1]), ZToInt(Zj(a[2])), o)
     [] op = "isint" -> PostIsInt(Arg(a[1]), o)
-    [] op = "nint_distance" -> PostNintDistance(Arg(a[1]), Zj(ev.o.v[1]), ev.o.v[2])
+    [] op = "nint_distance" -> IF a[1].k = "q" THEN PostNintDistanceQ(a[1].s = 1, ZMk(0, a[1].n), ZMk(0, a[1].d), Zj(ev.o.v[1]), ev.o.v[2])
+                               ELSE PostNintDistance(Arg(a[1]), Zj(ev.o.v[1]), ev.o.v[2])
     [] op = "to_float" -> PostToFloat(Arg(a[1]), ev.o.s, ev.o.be, ZMk(0, ev.o.fr))
     [] op = "from_float" -> o.k = "f" /\ o.v = (IF p = 0 \/ ~IsFin(Arg(a[1])) THEN Arg(a[1]) ELSE RoundDy(Val(Arg(a[1])), p, r))
     [] op = "pow_int" -> PostPowInt(Arg(a[1]), ZToInt(Zj(a[2])), p, r, o)
